@@ -238,7 +238,8 @@ Definition concat_frames (objs : list frame) : option frame :=
 
 Inductive pclass :=
 | Finalize      (* result = src._constructor_from_mgr(..).__finalize__(src) *)
-| CtorOnly      (* result = src._constructor_from_mgr(..), nothing copied   *)
+| CtorOnly      (* the operand is rebuilt with src._constructor_from_mgr(..), nothing copied
+                   (merge: followed by an axis-1 concat of the rebuilt operand) *)
 | ConcatStyle   (* result = objs[0]._constructor_from_mgr(..).__finalize__(objs, "concat") *)
 | Repo.         (* a method of the repo itself, transcribed above           *)
 
@@ -252,7 +253,10 @@ Inductive pop :=
 | OAssign (n : string)             (* df.assign(n=<plain values>), n a new label *)
 | ORename (old new : string)       (* df.rename(columns={old: new}) *)
 | OResetIndex (n : string)         (* df.reset_index(): the index becomes the first column n *)
-| OMerge (n : string)              (* df.merge(<plain frame with key and new column n>) *)
+| OMerge (n : string) (ident : bool)
+    (* df.merge(<plain frame with the key and a new column n>, on=key); ident = every row of
+       df is matched exactly once, in order (pandas then keeps `left[:]` instead of
+       re-indexing the left manager) *)
 | OConcat (before after : list frame)   (* pd.concat(before ++ [df] ++ after) *)
 (* the repo's own methods *)
 | OSetGeometry (g : string) (inplace : bool)
@@ -265,7 +269,7 @@ Definition pop_class (o : pop) : pclass :=
   | OIlocSlice | OIlocList | OLocMask | OLocLabels | OBoolMask | OHead | OTail
   | OSortValues | OSortIndex | OCopyDeep | OCopyShallow | OPickle | OCx
   | OSubset _ | ODrop _ | OAssign _ | ORename _ _ | OResetIndex _ => Finalize
-  | OMerge _ => CtorOnly
+  | OMerge _ _ => CtorOnly
   | OConcat _ _ => ConcatStyle
   | OSetGeometry _ _ | OGeoInit | OConstructor => Repo
   end.
@@ -297,7 +301,7 @@ Definition pop_cols (o : pop) (cs : list col) : option (list col) :=
   | ORename old new => Some (rename_cols cs old new)
   | OResetIndex n => if has_col cs n then None (* ValueError: cannot insert *)
                      else Some ((n, KPlain) :: cs)
-  | OMerge n => if has_col cs n then None (* not generated *) else Some (cs ++ [(n, KPlain)])
+  | OMerge n _ => if has_col cs n then None (* not generated *) else Some (cs ++ [(n, KPlain)])
   | _ => Some cs
   end.
 
@@ -311,7 +315,26 @@ Definition apply_pop (o : pop) (f : frame) : option frame :=
           else if is_geom_col (f_cols f) g then gdf_init f (Some g) else None
       end
   | OGeoInit => gdf_init f None
-  | OConstructor => Some (maybe_geodataframe f)
+  | OConstructor =>
+      (* pd.DataFrame._constructor is pd.DataFrame itself *)
+      match f_cls f with
+      | CPlain => Some (plain_of (f_cols f))
+      | CGeo => Some (maybe_geodataframe f)
+      end
+  | OMerge n ident =>
+      (* pandas _MergeOperation._reindex_and_concat:
+           left = self.left[:]                                   (finalize)
+           if the left indexer is not the identity range:
+               left = left._constructor_from_mgr(reindexed mgr)  (constructor only)
+           result = concat([left, right], axis=1)                (concat-style, sample = left)
+         then result.__finalize__(ns(input_objs=[left, right]), method="merge"): no _metadata *)
+      match pop_cols o (f_cols f) with
+      | None => None
+      | Some cs =>
+          let l0 := pandas_finalize (from_mgr f (f_cols f)) f in
+          let l1 := if ident then l0 else from_mgr l0 (f_cols f) in
+          Some (finalize_concat (from_mgr l1 cs) [l1; plain_of [(n, KPlain)]])
+      end
   | OConcat before after => concat_frames (before ++ [f] ++ after)
   | OCx =>
       (* GeoDataFrame.cx: _CoordinateIndexer(self.geometry.array, parent=self), then
